@@ -221,6 +221,42 @@ def feeder_serves_while_running(ctx, rule, parts='ab'):
            'waits for a feeder that keeps blocking in put()')
 
 
+def worker_never_leaves_with_a_task_in_hand(ctx, rule):
+    """Worker receive(): once a message has been read off the task pipe the worker either returns it to the loop or
+    it was the sentinel.  Every other reason to leave (restart requested, ...) is looked at *before* the read."""
+    ctx.rule(rule, 'a worker that read a task off the pipe hands it to the work loop: reasons to leave (restart '
+                   'event) are tested before the read, after it only the sentinel ends the worker', floor=2)
+    m = ctx.model
+    mk = m.func('pool:Worker._make_protected_receive')
+    rc = mk.children.get('receive')
+    q.need(rc is not None, 'Worker._make_protected_receive.receive not found')
+    cfg = rc.cfg
+    # the read: the one call whose result is unpacked into (ready, request)
+    reads = [n for n in cfg.where(lambda n: n.kind == 'stmt' and isinstance(n.ast, ast.Assign)
+                                  and isinstance(n.ast.targets[0], ast.Tuple) and len(n.ast.targets[0].elts) == 2
+                                  and isinstance(n.ast.value, ast.Call) and isinstance(n.ast.value.func, ast.Name))]
+    q.need(reads, 'receive() does not read the task pipe')
+    # what the read is unpacked into: (ready, req)
+    req = None
+    if isinstance(reads[0].ast, ast.Assign) and isinstance(reads[0].ast.targets[0], ast.Tuple):
+        req = ast.unparse(reads[0].ast.targets[0].elts[-1])
+        rdy = ast.unparse(reads[0].ast.targets[0].elts[0])
+    q.need(req is not None, 'receive(): result of the read is not unpacked into (ready, request)')
+    after = set()
+    for rd in reads:
+        after |= cfg.reach([b for (b, l) in cfg.succ[rd.id] if l != 'x'], include_src=True, skip_labels=('x',))
+    leaves = [n for n in cfg.where(lambda n: n.kind == 'stmt' and isinstance(n.ast, ast.Raise)) if n.id in after]
+    bad = [n for n in leaves if not (q.has_guard(rc, n, req + ' is None', True) or q.has_guard(rc, n, rdy, False))]
+    ctx.ob(rule, 'receive:after-the-read-only-the-sentinel-ends-the-worker', not bad, rc, bad[0] if bad else reads[0],
+           'after a completed read the worker exits only for `%s is None`' % req if not bad else
+           '`%s` can end the worker after a task was read off the pipe: that job is never announced, never run and '
+           'never attributed to anybody -- it stays pending for ever' % bad[0].text())
+    pre = [t for t in cfg.where(lambda t: t.kind == 'test') if 'should_shutdown' in ast.unparse(t.ast)]
+    ok = bool(pre) and all(cfg.dominated_by(rd, pre)[0] for rd in reads) and not any(t.id in after for t in pre)
+    ctx.ob(rule, 'receive:restart-looked-at-before-the-read', ok, rc, pre[0] if pre else None,
+           'should_shutdown() is tested before the pipe is read, not after')
+
+
 def feeder_state_is_per_sequence(ctx, rule):
     """TaskHandler.body: the variables the failure handlers read (current task, current
     index) are reset for every task sequence, so that a failure while feeding job B can
@@ -590,6 +626,7 @@ def run(ctx):
                doc='ApplyResult._ack records acceptance and the owner before any user callback can fail, on every '
                    'accepting path (an unrecorded owner = a job nobody fails when its worker dies)'))
     feeder_serves_while_running(ctx, 'R01.7', parts='a')
+    worker_never_leaves_with_a_task_in_hand(ctx, 'R01.12')
     # an outcome, a part list, a reorder buffer belong to one handle
     from .generic import per_instance_state, ctor_forwards_params
     per_instance_state(ctx, 'R01.9', ['pool'], floor=8, classes={'ApplyResult', 'IMapIterator'})
